@@ -81,7 +81,7 @@ type NodeSpec struct {
 	// routes on is what that Post returns.
 	Wrap string `json:"wrap,omitempty"`
 	ID   int    `json:"id"`
-	Kind string `json:"kind"` // base plain retry fb retryfb func batch flow zst (pointer to a zero-size type) ovr (embeds BaseNode, overrides the retry getters) val (a value-type node; the first one of a scenario is the zero value of its type)
+	Kind string `json:"kind"` // base plain retry fb retryfb func batch flow zst (pointer to a zero-size type) ovr (embeds BaseNode, overrides the retry getters) val (a value-type node; the first one of a scenario is the zero value of its type) deco (a decorator without retry getters whose Unwrap() returns a node with a budget of 3)
 
 	// func / batch: how each phase function is given: R (Result style), A (Any
 	// style), - (not set). Three characters: prep, exec, post.
@@ -147,6 +147,9 @@ type Scn struct {
 	Root      int         `json:"root"`
 	Runs      int         `json:"runs,omitempty"`
 	Via       string      `json:"via,omitempty"` // "" flyt.Run | flowrun (Flow.Run)
+	// NilStore: the run is given a nil *SharedStore; that (and nothing the
+	// framework makes up) is what prep and post receive.
+	NilStore bool `json:"nil_store,omitempty"`
 	Ctx       CtxSpec     `json:"ctx,omitempty"`
 	Canceller *Canceller  `json:"canceller,omitempty"`
 	Twin      string      `json:"twin,omitempty"` // C19/C10/C17 differential: canonical | flat | otherstyle
@@ -205,7 +208,7 @@ func (n *NodeSpec) configRun(r int) config {
 // retryable: does the framework see retry settings on this kind?
 func (n *NodeSpec) retryable() bool {
 	switch n.Kind {
-	case "plain", "fb", "zst", "val":
+	case "plain", "fb", "zst", "val", "deco":
 		return false
 	}
 	return true
@@ -214,7 +217,7 @@ func (n *NodeSpec) retryable() bool {
 // hasFallback: is there a user fallback whose outcome is scripted?
 func (n *NodeSpec) hasFallback() bool {
 	switch n.Kind {
-	case "plain", "retry", "zst", "val":
+	case "plain", "retry", "zst", "val", "deco":
 		return false
 	case "fb", "retryfb":
 		return true
